@@ -69,7 +69,7 @@ func (s *ltcredSys) Do(a map[string]any, wait func()) ([]Obs, error) {
 	switch a["a"] {
 	case "Mint":
 		var err error
-		d := time.Duration(toInt(a["dur"])) * time.Second
+		d := time.Duration(toInt(a["dur"])) * 100 * time.Millisecond // (the model counts tenths of a second)
 		if s.kind == "lt" {
 			s.user, s.pass, err = turn.GenerateLongTermCredentials(s.secret, d)
 		} else {
@@ -78,7 +78,7 @@ func (s *ltcredSys) Do(a map[string]any, wait func()) ([]Obs, error) {
 
 		return nil, err
 	case "Tick":
-		time.Sleep(time.Duration(toInt(a["d"])) * time.Second)
+		time.Sleep(time.Duration(toInt(a["d"])) * 100 * time.Millisecond)
 
 		return nil, nil
 	case "Present":
